@@ -148,9 +148,9 @@ def check_plan(r, w, plan, final, tags):
 
 
 def interference_kind(w, members, st):
-    """Reference diagnosis of WHY the members interfere: 'numeric' if some fluent written by one member is read or
-    written by another, else 'discrete' (an atom written by one member is read - in a precondition or an effect
-    condition - or oppositely written by another)."""
+    """Reference diagnosis of WHY the members interfere: 'numeric-write-write' if two members write the same fluent,
+    'numeric-read-write' if a fluent written by one member is read (precondition, condition, right-hand side) by
+    another, else 'discrete' (an atom written by one member is read or oppositely written by another)."""
     from ..refsem import mentioned, fired_groups, binding
     writes, reads = [], []
     for n, a in members:
@@ -161,8 +161,12 @@ def interference_kind(w, members, st):
         reads.append(set(fl))
     for i in range(len(members)):
         for j in range(len(members)):
-            if i != j and writes[i] & (reads[j] | writes[j]):
-                return "numeric"
+            if i != j and writes[i] & writes[j]:
+                return "numeric-write-write"
+    for i in range(len(members)):
+        for j in range(len(members)):
+            if i != j and writes[i] & reads[j]:
+                return "numeric-read-write"
     return "discrete"
 
 
@@ -185,8 +189,10 @@ def check_case(case):
 
 
 def _discrete_interference(case, fail):
-    """KF-C15-1: only interference through atoms (never through fluents), and only the 'interference' clause."""
-    return fail["clause"] == "interference" and fail["tags"][-1] == "discrete"
+    """KF-C15-1: interference that can only be seen by looking at what the members READ (atoms, or fluents read by a
+    precondition / condition / right-hand side); two members WRITING the same fluent is detected by the library and
+    stays a violation."""
+    return fail["clause"] == "interference" and fail["tags"][-1] in ("discrete", "numeric-read-write")
 
 
 MATCHERS = {"discrete_interference": _discrete_interference}
